@@ -370,8 +370,33 @@ func reachesCounter(pf *pendingFacts, fn *ssa.Function, p *ssa.Parameter, depth 
 		}
 		return ""
 	}
+	// the value handed to the supersede: the request itself, or the request replaced by the constant 0 on a branch the
+	// pool's stop flag alone selects (a stopped pool takes no new work: a late tick only discards)
+	isRequest := func(v ssa.Value) bool {
+		v = an.Strip(v)
+		if v == ssa.Value(p) {
+			return true
+		}
+		phi, ok := v.(*ssa.Phi)
+		if !ok || len(phi.Edges) != 2 || len(phi.Block().Preds) != 2 {
+			return false
+		}
+		for i, e := range phi.Edges {
+			k, isK := an.Strip(e).(*ssa.Const)
+			other := an.Strip(phi.Edges[1-i])
+			if !isK || k.Value == nil || k.Int64() != 0 || other != ssa.Value(p) {
+				continue
+			}
+			// the zero edge comes from a block entered only under a test of the stop flag
+			gs := an.GuardsOf(phi.Block().Preds[i])
+			if len(gs) > 0 && derivesFromStopFlag(gs[len(gs)-1].Cond, 0) && phi.Block().Preds[i] != gs[len(gs)-1].If.Block() {
+				return true
+			}
+		}
+		return false
+	}
 	for _, op := range pf.ops {
-		if op.Fn == fn && (op.Op == "Swap" || op.Op == "Store") && an.Strip(op.Call.Common().Args[1]) == ssa.Value(p) {
+		if op.Fn == fn && (op.Op == "Swap" || op.Op == "Store") && isRequest(op.Call.Common().Args[1]) {
 			if why := conditional(op.Call); why != "" {
 				return false, why
 			}
@@ -391,7 +416,7 @@ func reachesCounter(pf *pendingFacts, fn *ssa.Function, p *ssa.Parameter, depth 
 			continue
 		}
 		for i, a := range call.Common().Args {
-			if an.Strip(a) == ssa.Value(p) && i < len(t.Params) {
+			if isRequest(a) && i < len(t.Params) {
 				if why := conditional(call); why != "" {
 					return false, why
 				}
@@ -406,7 +431,7 @@ func reachesCounter(pf *pendingFacts, fn *ssa.Function, p *ssa.Parameter, depth 
 		}
 		// the supersede is reached but with another value
 		for i, tp := range t.Params {
-			if tp.Type().String() == "int" && i < len(call.Common().Args) && an.Strip(call.Common().Args[i]) != ssa.Value(p) {
+			if tp.Type().String() == "int" && i < len(call.Common().Args) && !isRequest(call.Common().Args[i]) {
 				broken = core.FuncName(fn) + " passes " + an.D().Of(call.Common().Args[i]) + " instead of its request parameter"
 			}
 		}
